@@ -168,6 +168,17 @@ def run(chk):
 
 
 def replay(chk, path):
+    """re-validate the recorded line with CommitTrace (the recorded line carries arguments and real results; to re-run
+    the real code on the current tree run the check itself: every case key is deterministic for a given seed)."""
     case = json.load(open(path))["case"]
-    print(json.dumps(case)[:3000])
-    return 0
+    if "lines" in case:          # a whole-file report (GlobalOK)
+        rows = case["lines"]
+    else:
+        rows = [case]
+    q = 3
+    for r in rows:
+        if r.get("a") in ("ped", "elg", "prog", "pkeynew", "ptrapnew") and ":q=" in r.get("k", ""):
+            q = int(r["k"].split(":q=")[1].split(":")[0])
+    hdr = {"a": "hdr", "k": "hdr", "q": q}
+    C19.validate(chk, "replay", "CommitTrace", "CommitTrace.cfg", rows, hdr, "global-token-map:replay", specdir=SPEC, extra=(ENC,))
+    return chk.finish()
